@@ -44,8 +44,13 @@ type Case struct {
 	// beSeen: (matrix, spectrum) pairs whose backward errors were evaluated.
 	beSeen map[uint64]bool
 	// svChecks / svCache: reference SVDs spent on similarity invariants.
-	svChecks int
-	svCache  map[uint64][]float64
+	// lwRot: per routine, how many workspace queries this case has made
+	// (selects the workspace class); exactQuery disables the rotation.
+	lwRot      map[string]int
+	exactQuery bool
+	rotMin     int
+	svChecks   int
+	svCache    map[uint64][]float64
 }
 
 func (h *H) newCase(id string, rng *vrt.Rand) *Case {
@@ -298,7 +303,47 @@ func (cs *Case) query(routine string, min int, empty bool, f func(work []float64
 		cs.fail(routine, "", "query-result-below-minimum", "work[0]=%v < documented minimum %d: using it verbatim is rejected", w0, min)
 		return 0, false
 	}
-	return int(w0), true
+	return cs.rotateLwork(routine, min, int(w0)), true
+}
+
+// rotateLwork turns "the value reported by the query" into a family of
+// admissible workspace lengths: the first request of a routine within a
+// logical input uses the reported optimum verbatim, the following ones walk
+// through lengths on both sides of the points where the routines change their
+// blocking or workspace layout (optimum +-1, twice the minimum +-1 - the
+// smallest block size of two -, half way, a generous length well above the
+// optimum, four times the optimum). Every length >= the documented minimum
+// must give a correct result. Dgesvd enumerates its own thresholds
+// (exactQuery).
+func (cs *Case) rotateLwork(routine string, min, q int) int {
+	if cs.exactQuery {
+		return q
+	}
+	if cs.rotMin > min {
+		min = cs.rotMin // documented minimum where the enforced one is lower
+	}
+	if cs.lwRot == nil {
+		cs.lwRot = map[string]int{}
+	}
+	i := cs.lwRot[routine]
+	cs.lwRot[routine]++
+	cands := []struct {
+		name string
+		v    int
+	}{
+		{"query", q}, {"generous", 3*q + 64*min + 1000}, {"query-1", q - 1}, {"2min", 2 * min}, {"query+1", q + 1},
+		{"4xquery", 4 * q}, {"2min-1", 2*min - 1}, {"halfway", (min + q) / 2}, {"2min+1", 2*min + 1}, {"min+1", min + 1},
+	}
+	c := cands[i%len(cands)]
+	v := c.v
+	if v < min {
+		v = min
+	}
+	if v < 1 {
+		v = 1
+	}
+	cs.h.c.Count("lwork_class|"+c.name, 1)
+	return v
 }
 
 func (cs *Case) replay() any {
